@@ -46,6 +46,7 @@ class OperationDurationParameters:
     @property
     def duration_mapper(self) -> Dict[str, float]:
         return {
+            'M': self.duration_mz,  # Stim reports 'MZ' under its canonical name 'M'
             'MZ': self.duration_mz,
             'CZ': self.duration_cz,
             'H': self.duration_h,
